@@ -3,6 +3,8 @@ import CompmechVerif.Props.C09
 #print axioms Compmech.NR.C09.reported_eq_report_events
 #print axioms Compmech.NR.C09.reported_increasing_in_unit_interval
 #print axioms Compmech.NR.C09.snapshots_immutable
+#print axioms Compmech.NR.C09.snapshots_immutable_le
+#print axioms Compmech.NR.C09.reported_load_factors_nodup_last_max
 #print axioms Compmech.NR.C09.bisect_one_pass
 #print axioms Compmech.NR.C09.terminates
 #print axioms Compmech.NR.C09.final_within_tolerance_or_below_min_partial
